@@ -17,6 +17,10 @@ type C04Job struct {
 	Detail     bool        `json:"detail"` // emit every replay (for leg C); otherwise only mismatches + summary
 	Sweeps     []Sweep     `json:"sweeps"`
 	Mass       []Mass      `json:"mass"`
+	// lazy-cache behaviours (stale hit, background refresh) realised behind a rewrite-and-restore plugin
+	LazyBeh    []Behaviour `json:"lazy_beh"`
+	LazyMap    *Map        `json:"lazy_map"`
+	LazyRounds int         `json:"lazy_rounds"`
 }
 
 // Sweep: the same abstract behaviour replayed once per concrete value v of one dimension, the
@@ -291,6 +295,34 @@ func runC04(j *C04Job) error {
 		return err
 	default:
 	}
+	if len(j.LazyBeh) > 0 {
+		hv, err := newHarvester()
+		if err != nil {
+			return err
+		}
+		defer hv.in.close()
+		for bi := range j.LazyBeh {
+			for round := 0; round < max(j.LazyRounds, 1); round++ {
+				for _, o := range []lazyOpts{
+					{Mult: 1, Via: true, Procs1: true, Probe: true, Tag: "lazy-via-rewrite"},
+					{Mult: 1, Via: true, Procs1: false, Probe: true, Tag: "lazy-via-rewrite"},
+					{Mult: 1, Via: false, Procs1: round%2 == 0, Probe: true, Tag: "lazy-direct"},
+				} {
+					var rec TraceRec
+					for attempt := 0; attempt < 3; attempt++ {
+						rec, err = runLazy(bi, &j.LazyBeh[bi], j.LazyMap, hv, o)
+						if err != nil {
+							return fmt.Errorf("lazy behaviour %d: %w", bi, err)
+						}
+						if !rec.Slow {
+							break
+						}
+					}
+					vh.Emit(rec)
+				}
+			}
+		}
+	}
 	vh.Emit(C04Rec{Kind: "summary", N: total, Mism: mism, Hits: hits, Match: mism == 0})
 	return nil
 }
@@ -354,7 +386,7 @@ func runMass(in *inst, j *C04Job, ms Mass, total, mism, hits *int) error {
 			*hits++
 		}
 		// expectation of TLC for L(a): a hit that serves a's own stored answer
-		ok := o.Res == expLook.Res && (o.Res != "hit" || (o.Sid == v+1 && o.Owner == CQ{cq.Name, cq.Type, cq.Class, cq.Flags, ""} && o.Idok))
+		ok := o.Res == expLook.Res && (o.Res != "hit" || (o.Sid == v+1 && o.Owner == CQ{Name: cq.Name, Type: cq.Type, Class: cq.Class, Flags: cq.Flags} && o.Idok))
 		if !ok {
 			report("lookup", v, cq, o, m, 100000+v)
 		}
